@@ -10,6 +10,7 @@ a proof as well as the correspondence.
   h2AcceptCaseFold       _validate lower-cases both sides of the accept comparison      (F7)
   h2ConnectionNamed      the `connection` option is sent as `Connection: <value>`       (F15)
   h2DecodeGuard          read_headers maps UnicodeDecodeError to WebSocketException     (F8)
+  iterationIsRecv        WebSocket.__iter__ / __next__ / next are exactly `while True: yield self.recv()` / `return self.recv()` / `return self.__next__()`
   recvDecodeGuard        WebSocket.recv() maps UnicodeDecodeError of data.decode("utf-8") to WebSocketPayloadException
   h2StatusGuard          read_headers maps IndexError/ValueError of the status line     (F8)
   h2LocationGuard        connect() does not index headers["location"] unguarded         (F8)
@@ -255,6 +256,30 @@ def extend(repo, T, ex):
                         ok = True
         guard = guard and ok
     T["recvDecodeGuard"] = guard
+
+    # ---- the other spellings of "receive one message": `__iter__` is `while True: yield self.recv()`, `__next__` is
+    #      `return self.recv()`, `next` is `return self.__next__()` — nothing else (no test of the value, no try/except):
+    #      the model has ONE receive operation for all of them
+    def _is_self_call(n, name):
+        return (isinstance(n, ast.Call) and not n.args and not n.keywords and isinstance(n.func, ast.Attribute)
+                and n.func.attr == name and getattr(n.func.value, "id", "") == "self")
+
+    def _body(fn):
+        return [st for st in fn.body if not (isinstance(st, ast.Expr) and isinstance(st.value, ast.Constant))]
+    it = ex._find(ws.body, ast.FunctionDef, "__iter__")
+    nx = ex._find(ws.body, ast.FunctionDef, "__next__")
+    nx2 = ex._find(ws.body, ast.FunctionDef, "next")
+    ok_iter = False
+    b = _body(it) if it is not None else []
+    if len(b) == 1 and isinstance(b[0], ast.While) and isinstance(b[0].test, ast.Constant) and b[0].test.value is True \
+            and not b[0].orelse and len(b[0].body) == 1 and isinstance(b[0].body[0], ast.Expr) \
+            and isinstance(b[0].body[0].value, ast.Yield) and _is_self_call(b[0].body[0].value.value, "recv"):
+        ok_iter = True
+    b = _body(nx) if nx is not None else []
+    ok_next = len(b) == 1 and isinstance(b[0], ast.Return) and _is_self_call(b[0].value, "recv")
+    b = _body(nx2) if nx2 is not None else []
+    ok_next2 = len(b) == 1 and isinstance(b[0], ast.Return) and _is_self_call(b[0].value, "__next__")
+    T["iterationIsRecv"] = bool(ok_iter and ok_next and ok_next2)
     g = _guarded(f, is_int_status, ["IndexError", "ValueError"])
     if g is None:
         raise ex.ExtractError("read_headers: int(status_info[1]) not found")
